@@ -12,6 +12,7 @@ import (
 	"io"
 	"net"
 	"runtime"
+	"runtime/debug"
 	"time"
 
 	"pgregory.net/rapid"
@@ -333,4 +334,39 @@ func AllocDuring(fn func()) uint64 {
 	fn()
 	runtime.ReadMemStats(&b)
 	return b.TotalAlloc - a.TotalAlloc
+}
+
+// DecoderCall runs one decoder call on in (a closed stream: io.EOF after the
+// bytes) under the C11 decoder oracles: no panic (vlib.Guard signature), the
+// decoder gives up after end-of-stream (at most 1000 further reads), and the
+// bytes allocated during the call stay within AllocBudget(len(in)).
+func DecoderCall(v *vlib.Verdict, decoder string, in []byte, call func(st *Stream)) {
+	st := &Stream{Data: in, MaxEOFs: 1000}
+	var panicked bool
+	alloc := AllocDuring(func() {
+		panicked = guardSpin(v, decoder, func() { call(st) })
+	})
+	if panicked {
+		return
+	}
+	if budget := AllocBudget(len(in)); alloc > budget {
+		v.Failf("C11:alloc-out-of-proportion:"+decoder, "%d input bytes made %s allocate %d bytes (bound %d)", len(in), decoder, alloc, budget)
+	}
+}
+
+// guardSpin is vlib.Guard plus recognition of the harness's own "reader never
+// gives up after EOF" panic.
+func guardSpin(v *vlib.Verdict, decoder string, fn func()) (panicked bool) {
+	defer func() {
+		if r := recover(); r != nil {
+			panicked = true
+			if s, ok := r.(string); ok && s == SpinPanic {
+				v.Failf("C11:no-progress-after-eof:"+decoder, "%s kept reading after 1000 end-of-stream results", decoder)
+				return
+			}
+			v.Failf(vlib.PanicSig(r, string(debug.Stack())), "panic: %v", r)
+		}
+	}()
+	fn()
+	return false
 }
